@@ -412,7 +412,7 @@ func classify(cs []*ctxSpec, sni string, protos []string, got int) string {
 
 // ---------------------------------------------------------------------------------------------
 
-const c13Header = "From MV Require Import Gen.TLSTokens Model.TLSSelect.\nFrom Coq Require Import List String NArith.\nImport ListNotations.\nOpen Scope string_scope.\n"
+var c13Header = inlineGen(genTLSTokens) + "From MV Require Import Model.TLSSelect.\nFrom Coq Require Import List String NArith.\nImport ListNotations.\nOpen Scope string_scope.\n"
 
 func coqStrs(xs []string) string {
 	var o []string
